@@ -16,3 +16,68 @@ Proof.
   exists cc. split; [exact Hc|].
   exact (json_roundtrip L s mode c d c' cc HL Hs Hwf Hpos (doc_ok_save_json L s mode c d c' HL Hs Hwf Hpos Hid Hrw Hty) Hiv Hc).
 Qed.
+
+(* C02, identity of the loaded objects (d94ad6a): the reader makes one object per entry of the written document that is not a sofa;
+   every holder of an id (feature, FSArray element, view member, sofaArray of one or several sofas) takes its object from the
+   id-keyed dict, so structures shared in the CAS that was saved are shared in the CAS that is loaded *)
+Theorem json_roundtrip_objects L s mode c d c' es :
+  lex_ok L -> save_json L s mode c = Ok (d, c') ->
+  wf_jsonb s c' = true -> ids_distinctb s c' = true -> refs_wfb s c' = true -> typed_jsonb s c' = true -> 0 < c_next_id c ->
+  fs_entries d = Ok es ->
+  exists made, load_made L s d = Ok made /\ NoDup made /\ Permutation.Permutation made (map fst (filter not_sofa es)).
+Proof.
+  intros HL Hs Hwf Hid Hrw Hty Hpos Hes.
+  destruct (canon_json_after_save L s mode c d c' HL Hs Hwf Hpos) as (cc & _ & Hden).
+  exact (load_json_one_object_per_entry L s d cc es (doc_ok_save_json L s mode c d c' HL Hs Hwf Hpos Hid Hrw Hty) Hden Hes).
+Qed.
+
+(* ---- the mechanisms before d1bc860 / d94ad6a, refuted on one CAS: three views; the byte array 5 (id 32) holds the data of the
+   first two sofas and is indexed in the second view, the id-less byte array 6 holds the data of the third ---- *)
+Definition shared_cas : cas :=
+  mkCas [mkView (mkSofa 1 1 "_InitialView" None None None (Some 5%N)) [];
+         mkView (mkSofa 2 2 "view1" None None None (Some 5%N)) [5%N];
+         mkView (mkSofa 3 3 "view2" None (Some "application/octet-stream") None (Some 6%N)) []]
+        [(5%N, mkFs "uima.cas.ByteArray" (Some 32) [("elements", VList [VInt 255])]);
+         (6%N, mkFs "uima.cas.ByteArray" None [("elements", VList [VInt 1; VInt 2])])] 40.
+
+(* the repaired writer lists every structure once, all premises of the C02 theorems hold for this CAS, the reader makes one
+   object per entry and returns the content of the CAS *)
+Lemma shared_cas_ok :
+  match save_json std_lex builtin_schema MNone shared_cas with
+  | Ok (d, c') =>
+      wf_jsonb builtin_schema c' = true /\ ids_distinctb builtin_schema c' = true /\ refs_wfb builtin_schema c' = true /\
+      typed_jsonb builtin_schema c' = true /\ initial_view_in c' = true /\
+      doc_ids_distinctb d = true /\ doc_ok_json std_lex builtin_schema d = true /\
+      option_map (fun es => map fst es) (match fs_entries d with Ok es => Some es | _ => None end) = Some [32; 1; 2; 40; 3] /\
+      load_made std_lex builtin_schema d = Ok [32; 40] /\
+      load_json std_lex builtin_schema d = canon_json builtin_schema c'
+  | _ => False
+  end.
+Proof. vm_compute. repeat split; reflexivity. Qed.
+
+(* before d1bc860: the array was written in front of each of the two sofas and once more by the traversal loop -- three entries
+   under the id 32; the document is not a well-formed JSON-CAS document although the CAS satisfies every premise *)
+Theorem old_writer_lists_array_again_refuted :
+  exists s c d c', save_json_old std_lex s MNone c = Ok (d, c') /\
+    wf_jsonb s c' = true /\ ids_distinctb s c' = true /\ refs_wfb s c' = true /\ typed_jsonb s c' = true /\ 0 < c_next_id c /\
+    (match fs_entries d with Ok es => map fst es | _ => [] end) = [32; 1; 32; 2; 40; 3; 32] /\
+    doc_ids_distinctb d = false /\ doc_ok_json std_lex s d = false.
+Proof.
+  exists builtin_schema, shared_cas.
+  destruct (save_json_old std_lex builtin_schema MNone shared_cas) as [[d c']| |] eqn:E; [|vm_compute in E; discriminate..].
+  exists d, c'. split; [reflexivity|]. vm_compute in E. inversion E; subst d c'. vm_compute. repeat split; reflexivity.
+Qed.
+
+(* before d94ad6a: the second pass parsed the byte array fetched ahead for a sofa into a second object -- on the (well-formed)
+   document the repaired writer produces for this CAS two objects are made under the id 32 and two under 40: the sofas hold the
+   first ones, the dict (hence the view member 32 of view1) the second ones; the sharing is lost, while the content by id is the
+   same, which is why the loss was invisible to a comparison by id *)
+Theorem old_reader_second_object_refuted :
+  exists s d, doc_ok_json std_lex s d = true /\
+    load_made_old std_lex s d = Ok [32; 40; 32; 40] /\ load_made std_lex s d = Ok [32; 40] /\
+    load_json_old std_lex s d = load_json std_lex s d.
+Proof.
+  exists builtin_schema.
+  destruct (save_json std_lex builtin_schema MNone shared_cas) as [[d c']| |] eqn:E; [|vm_compute in E; discriminate..].
+  exists d. vm_compute in E. inversion E; subst d c'. vm_compute. repeat split; reflexivity.
+Qed.
